@@ -244,14 +244,14 @@ PROPS = {
                       "first-`: `-split on the trimmed line (and StackFrame::try_parse / Throwable::try_parse the same on valid UTF-8); that parse_stacktrace / StackTrace::try_parse return exactly the nested "
                       "trace of the reference parser trace_spec over the lines (exception from the first line, frames to the innermost trace, `Caused by: ` opens a new innermost trace, None iff no exception and no frame); "
                       "and, as pure lemmas for ALL byte strings c, m, f and numbers n, that frame_spec(frame_text(c, m, f, n)) == Some((c, m, f, n)) when class.method has no `(`, method no `.`, file no `:`, "
-                      "and that the class / message of throwable_text(c, msg) are (c, msg) when the class has no space. The whole-trace round trip parse(print(t)) == t is NOT composed from the two halves.",
+                      "and that the class / message of throwable_text(c, msg) are (c, msg) when the class has no space. The whole-trace round trip is proved STRUCTURALLY (u19: lines of the shape Display lays out for t parse back to t, given that every line is classified as the part it prints, that the top level has an exception or a frame, and that every cause has an exception); that str::lines splits the printed text into these lines, the `{}`-of-nested-value link and trim on the indentation remain hypotheses.",
         "assumed": ["write! appends the literal pieces and the renderings of its arguments in order; `{}` of a &str appends the string, of a usize its decimal digits dec(n), and parse(dec(n)) == n; `{}` of a reference or a Box prints the value behind it",
                     "str::trim is the identity on text without outer white space (needed to compose print and parse; stated as a hypothesis, not proved)",
                     "`{}` of a nested value appends exactly what its Display::fmt appends (links the fmt bodies to display_of in units u12 / u16)",
                     "the str API contracts of contracts/text_model.rs (split_once / rsplit_once as first / last occurrence, starts_with, ends_with, slicing)",
                     "u19: content.lines().peekable() yields an abstract sequence lines_of(content); Peekable::{peek,next}; str::strip_prefix(&str) abstract; Option<Box<T>>::as_deref_mut().unwrap() returns the &mut to the boxed value (prophecy clause); "
                     "parse_frame / parse_throwable are functions of their argument (what they compute is unit u15); std::str::from_utf8 abstract"],
-        "not_decided": ["parse_stacktrace(to_string(t)) == t for whole traces (needs lines_of of a concatenation; the two halves are proved separately)", "print(parse(print(x))) == print(x) follows from parse(print(x)) == x and is not stated separately"],
+        "not_decided": ["the byte-level glue of the whole-trace round trip: lines_of(to_string(t)) is the sequence of printed lines, `{}` of a nested value is what its fmt appends, trim strips the four-space indentation (the structural part and the single-line round trips are proved)", "print(parse(print(x))) == print(x) follows from parse(print(x)) == x and is not stated separately"],
         "design_ref": "DESIGN.md 5/C17",
     },
     "C20": {
